@@ -17,7 +17,9 @@ import (
 	"errors"
 	"fmt"
 	"math/big"
+	"os"
 	"sort"
+	"strconv"
 	"strings"
 	"sync"
 	"sync/atomic"
@@ -372,7 +374,13 @@ type c11Env struct {
 	fwdIn     map[[3]int]*builderapiv1.SignedValidatorRegistration
 	mode      string // "reg" | "fwd": how a relay judges the signature of what it receives
 	prepSeen  int
-	quiet     bool // no registration events (C12: the registration part is not in its trace)
+	// latency script of the current round: "" / "none" = every fake answers at once; "slow" = a healthy relay
+	// or node answers only after the scripted-failing ones of the same fan-out have answered (bounded) and a
+	// further short period, watching its context all the while; "batched" = as slow, and a relay receives
+	// its payload one registration at a time, with such a period before every batch
+	lat    string
+	fanout map[string]*c11Fanout
+	quiet  bool // no registration events (C12: the registration part is not in its trace)
 	quietOps  bool // no Source / Bid events (stress)
 }
 
@@ -556,6 +564,80 @@ func (e *c11Env) c11SigOK(pubkey phase0.BLSPubKey, root [32]byte, sig phase0.BLS
 	return s.Verify(signingRoot[:], c11Keys[v].PublicKey())
 }
 
+// ---- calls that honour their context ----
+
+// c11Fanout tells the healthy fakes of one fan-out (relays "R", secondary nodes "N", preparation nodes
+// "P") when a scripted-failing one has answered.
+type c11Fanout struct {
+	once   sync.Once
+	failed chan struct{}
+}
+
+// c11LatPeriod is the period a slow fake stays "in flight" (an ordering device, not a deadline: the
+// verdict never depends on it - on a tree where the property holds no context is ever cancelled, however
+// the overlap resolves).  Longer on the confirming re-runs.
+func c11LatPeriod() time.Duration {
+	ms, err := strconv.Atoi(os.Getenv("VERIF_C11_LAT_MS"))
+	if err != nil || ms <= 0 {
+		ms = 8
+	}
+	return time.Duration(ms) * time.Millisecond
+}
+
+// newRound resets the latency script (called with e.mu held).
+func (e *c11Env) newRound(lat string) {
+	e.lat = lat
+	e.fanout = map[string]*c11Fanout{}
+	for _, k := range []string{"R", "N", "P"} {
+		e.fanout[k] = &c11Fanout{failed: make(chan struct{})}
+	}
+}
+
+func (e *c11Env) fanoutOf(k string) (*c11Fanout, string) {
+	e.mu.Lock()
+	defer e.mu.Unlock()
+	if e.fanout == nil {
+		e.newRound("")
+	}
+	return e.fanout[k], e.lat
+}
+
+// failedNow is called by a scripted-failing fake just before it returns its error.
+func (e *c11Env) failedNow(k string) {
+	f, _ := e.fanoutOf(k)
+	f.once.Do(func() { close(f.failed) })
+}
+
+// inFlight is what a healthy fake does before it accepts (a batch of) its payload, like a request that
+// is on the wire: it returns the context's error as soon as the context is done, nil otherwise.
+// first: also wait (bounded) until a scripted-failing fake of the same fan-out has answered.
+func (e *c11Env) inFlight(ctx context.Context, k string, anyFailing bool, first bool) error {
+	if err := ctx.Err(); err != nil {
+		return err
+	}
+	f, lat := e.fanoutOf(k)
+	if lat != "slow" && lat != "batched" {
+		return nil
+	}
+	period := c11LatPeriod()
+	if anyFailing && first {
+		t := time.NewTimer(3 * period)
+		select {
+		case <-f.failed:
+		case <-ctx.Done():
+		case <-t.C:
+		}
+		t.Stop()
+	}
+	t := time.NewTimer(period)
+	defer t.Stop()
+	select {
+	case <-ctx.Done():
+	case <-t.C:
+	}
+	return ctx.Err()
+}
+
 // ---- relays ----
 
 // c11Relay is a relay client living in util's builder client cache; it serves the current environment.
@@ -606,15 +688,22 @@ func c11SortRegs(regs []c11RegEv) {
 	})
 }
 
-func (r *c11Relay) SubmitValidatorRegistrations(_ context.Context, opts *builderapi.SubmitValidatorRegistrationsOpts) error {
+// SubmitValidatorRegistrations behaves like the HTTP client of a relay: the request fails with the
+// context's error when the context is done on entry or becomes done while the request is in flight (what
+// has not been delivered by then never arrives); a scripted-failing relay answers with its error at once.
+// Events: RelayStart (what the client was handed, state of the context on entry), RelayBatch (what the
+// relay received), RelayFinish (ok / err = the relay's own failure / ctx = context error).
+func (r *c11Relay) SubmitValidatorRegistrations(ctx context.Context, opts *builderapi.SubmitValidatorRegistrationsOpts) error {
 	e := r.env.Load()
 	if e == nil {
 		return errors.New("no environment")
 	}
 	e.mu.Lock()
 	fail := e.relayFail[r.id]
+	anyFailing := len(e.relayFail) > 0
 	mode := e.mode
 	quiet := e.quiet
+	lat := e.lat
 	e.mu.Unlock()
 	regs := make([]c11RegEv, 0, len(opts.Registrations))
 	for _, reg := range opts.Registrations {
@@ -634,12 +723,40 @@ func (r *c11Relay) SubmitValidatorRegistrations(_ context.Context, opts *builder
 		regs = append(regs, ev)
 	}
 	c11SortRegs(regs)
-	if !quiet {
-		e.emit(verifsupport.Ev{"ev": "RelaySubmit", "r": r.id, "regs": regs, "ok": !fail})
+	emit := func(ev verifsupport.Ev) {
+		if !quiet {
+			ev["r"] = r.id
+			e.emit(ev)
+		}
+	}
+	emit(verifsupport.Ev{"ev": "RelayStart", "regs": regs, "cx": ctx.Err() != nil})
+	if err := ctx.Err(); err != nil {
+		emit(verifsupport.Ev{"ev": "RelayFinish", "out": "ctx"})
+		return err
 	}
 	if fail {
+		emit(verifsupport.Ev{"ev": "RelayFinish", "out": "err"})
+		e.failedNow("R")
 		return errors.New("scripted relay failure")
 	}
+	// the payload travels in one piece, or one registration at a time
+	batches := [][]c11RegEv{regs}
+	if lat == "batched" {
+		batches = batches[:0]
+		for i := range regs {
+			batches = append(batches, regs[i:i+1])
+		}
+	}
+	for i, batch := range batches {
+		if err := e.inFlight(ctx, "R", anyFailing, i == 0); err != nil {
+			emit(verifsupport.Ev{"ev": "RelayFinish", "out": "ctx"})
+			return err
+		}
+		if len(batch) > 0 {
+			emit(verifsupport.Ev{"ev": "RelayBatch", "regs": batch})
+		}
+	}
+	emit(verifsupport.Ev{"ev": "RelayFinish", "out": "ok"})
 	return nil
 }
 
@@ -657,10 +774,14 @@ func (n *c11Node) Address() string { return fmt.Sprintf("node%d", n.id) }
 func (n *c11Node) IsActive() bool  { return true }
 func (n *c11Node) IsSynced() bool  { return true }
 
-func (n *c11Node) SubmitValidatorRegistrations(_ context.Context, registrations []*consensusapi.VersionedSignedValidatorRegistration) error {
+// SubmitValidatorRegistrations and SubmitProposalPreparations honour their context like the relay fake
+// (a node receives its single request when the call finishes "ok").  Events: NodeStart / NodeFinish and
+// PrepCall / PrepReturn.
+func (n *c11Node) SubmitValidatorRegistrations(ctx context.Context, registrations []*consensusapi.VersionedSignedValidatorRegistration) error {
 	e := n.env
 	e.mu.Lock()
 	fail := e.nodeFail[n.id]
+	anyFailing := len(e.nodeFail) > 0
 	quiet := e.quiet
 	e.mu.Unlock()
 	regs := make([]c11RegEv, 0, len(registrations))
@@ -676,19 +797,38 @@ func (n *c11Node) SubmitValidatorRegistrations(_ context.Context, registrations 
 		regs = append(regs, ev)
 	}
 	c11SortRegs(regs)
-	if !quiet {
-		e.emit(verifsupport.Ev{"ev": "NodeSubmit", "n": n.id, "regs": regs, "ok": !fail})
+	emit := func(ev verifsupport.Ev) {
+		if !quiet {
+			ev["n"] = n.id
+			e.emit(ev)
+		}
+	}
+	emit(verifsupport.Ev{"ev": "NodeStart", "regs": regs, "cx": ctx.Err() != nil})
+	if err := ctx.Err(); err != nil {
+		emit(verifsupport.Ev{"ev": "NodeFinish", "out": "ctx"})
+		return err
 	}
 	if fail {
+		emit(verifsupport.Ev{"ev": "NodeFinish", "out": "err"})
+		e.failedNow("N")
 		return errors.New("scripted node failure")
 	}
+	if err := e.inFlight(ctx, "N", anyFailing, true); err != nil {
+		emit(verifsupport.Ev{"ev": "NodeFinish", "out": "ctx"})
+		return err
+	}
+	emit(verifsupport.Ev{"ev": "NodeFinish", "out": "ok"})
 	return nil
 }
 
-func (n *c11Node) SubmitProposalPreparations(_ context.Context, preparations []*consensusapiv1.ProposalPreparation) error {
+func (n *c11Node) SubmitProposalPreparations(ctx context.Context, preparations []*consensusapiv1.ProposalPreparation) error {
 	e := n.env
 	e.mu.Lock()
 	out := e.prepOut[n.id]
+	anyFailing := false
+	for _, o := range e.prepOut {
+		anyFailing = anyFailing || o == "err"
+	}
 	e.mu.Unlock()
 	if out == "" {
 		out = "ok"
@@ -698,18 +838,29 @@ func (n *c11Node) SubmitProposalPreparations(_ context.Context, preparations []*
 		preps = append(preps, [2]int{int(p.ValidatorIndex) - 100, c11FeeID(p.FeeRecipient)})
 	}
 	sort.Slice(preps, func(i, j int) bool { return preps[i][0] < preps[j][0] })
-	e.emit(verifsupport.Ev{"ev": "PrepSubmit", "n": n.id, "preps": preps, "out": out})
+	e.emit(verifsupport.Ev{"ev": "PrepCall", "n": n.id, "preps": preps, "cx": ctx.Err() != nil})
+	var err error
+	switch {
+	case ctx.Err() != nil:
+		out, err = "ctx", ctx.Err()
+	case out == "err":
+		err = errors.New("scripted node failure")
+	case out == "notactive":
+		err = consensusclient.ErrNotActive
+	default:
+		if err = e.inFlight(ctx, "P", anyFailing, true); err != nil {
+			out = "ctx"
+		}
+	}
+	e.emit(verifsupport.Ev{"ev": "PrepReturn", "n": n.id, "out": out})
+	if out == "err" {
+		e.failedNow("P")
+	}
 	e.mu.Lock()
 	e.prepSeen++
 	e.acctsCond.Broadcast()
 	e.mu.Unlock()
-	switch out {
-	case "err":
-		return errors.New("scripted node failure")
-	case "notactive":
-		return consensusclient.ErrNotActive
-	}
-	return nil
+	return err
 }
 
 // ---- builder-bid strategy ----
